@@ -18,6 +18,8 @@ Ok1(A, B, r) == IF IsErr(r) THEN Out(A, B, NoTab, r.err, <<>>) ELSE Out(A, B, r,
 (* inconsistent-input probes: must be rejected (at construction or first use), never accepted *)
 RejectKinds == {"len_mismatch_features", "len_mismatch_rot", "feature_named_z", "append_extra_column", "pos_not_3"}
 
+(* a third table, for programmes that append to a RESULT while both operands stay alive *)
+Extra == Table(<<"k">>, <<[uid |-> 14, f |-> [k |-> 2]], [uid |-> 15, f |-> [k |-> 0]]>>)
 Outcomes(op, A, B) ==
   CASE op.name = "head"        -> {Ok1(A, B, Head_(A, op.n))}
     [] op.name = "tail"        -> {Ok1(A, B, Tail_(A, op.n))}
@@ -31,6 +33,7 @@ Outcomes(op, A, B) ==
     [] op.name = "concat_with" -> {Ok1(A, B, r) : r \in ConcatAllowed(A, B)}
     [] op.name = "concat"      -> {Ok1(A, B, r) : r \in ConcatAllowed(A, B)}
     [] op.name = "append"      -> {IF IsErr(r) THEN Out(A, B, NoTab, r.err, <<>>) ELSE Out(r, B, r, "", <<>>) : r \in AppendAllowed(A, B)}
+    [] op.name = "append_extra"-> {IF IsErr(r) THEN Out(A, B, NoTab, r.err, <<>>) ELSE Out(r, B, r, "", <<>>) : r \in AppendAllowed(A, Extra)}
     [] op.name = "with_feature"-> {Ok1(A, B, WithFeature_(A, op.new, op.src, op.delta))}
     [] op.name = "drop_feature"-> {Ok1(A, B, DropFeature_(A, op.col))}
     [] op.name = "group_by"    -> IF ~HasCol(A, op.col) THEN {Out(A, B, NoTab, "ColumnNotFound", <<>>)}
@@ -77,6 +80,9 @@ Accepts(op, A, B, o) ==
     [] op.name = "append"      -> \E r \in AppendAllowed(A, B) :
                                   IF IsErr(r) THEN ErrOnly(A, B, o, {r.err})
                                   ELSE o.err = "" /\ SameTab(o.A, r) /\ SameTab(o.res, r) /\ SameTab(o.B, B)
+    [] op.name = "append_extra"-> \E r \in AppendAllowed(A, Extra) :
+                                  IF IsErr(r) THEN ErrOnly(A, B, o, {r.err})
+                                  ELSE o.err = "" /\ SameTab(o.A, r) /\ SameTab(o.res, r) /\ SameTab(o.B, B)
     [] op.name = "with_feature"-> Det(A, B, o, WithFeature_(A, op.new, op.src, op.delta))
     [] op.name = "drop_feature"-> Det(A, B, o, DropFeature_(A, op.col))
     [] op.name = "group_by"    -> IF ~HasCol(A, op.col) THEN ErrOnly(A, B, o, {"ColumnNotFound"})
@@ -110,7 +116,7 @@ Ctx(op, A) == IF op.name = "cutby" /\ HasCol(A, op.col) /\ \E i \in 1..NRows(A) 
 (* the first violated clause, for total verdicts *)
 Why(op, A, B, o) ==
   IF Accepts(op, A, B, o) THEN "ok"
-  ELSE IF ~Untouched(A, B, o) /\ op.name # "append" THEN "OperandMutated"
+  ELSE IF ~Untouched(A, B, o) /\ op.name \notin {"append", "append_extra"} THEN "OperandMutated"
   ELSE IF o.err # "" /\ op.name \notin {"filter_any", "perm_any"} THEN "UnexpectedError"
   ELSE IF op.name \in {"group_by", "cutby"} THEN "GroupsNotPartition"
   ELSE IF op.name = "reject" THEN "InconsistentInputAccepted"
